@@ -107,6 +107,15 @@ func widthOfCall(c *ssa.CallCommon, depth int) (width, bool) {
 			if id := typeID(p.Type()); id == "bytes.Buffer" || id == "bytes.Reader" {
 				hasBuf = true
 			}
+			// or an interface over it (`type byteSource interface{ io.Reader; io.ByteReader }`)
+			if it, ok := p.Type().Underlying().(*types.Interface); ok {
+				for i := 0; i < it.NumMethods(); i++ {
+					switch it.Method(i).Name() {
+					case "Read", "ReadByte", "Write", "WriteByte":
+						hasBuf = true
+					}
+				}
+			}
 		}
 		if !hasBuf {
 			return width{}, false
@@ -1120,8 +1129,25 @@ func ruleBitsAndOrder(r *R) {
 		if fn.Signature.Recv() != nil || fn.Parent() != nil || len(fn.Params) == 0 {
 			continue
 		}
-		id := typeID(fn.Params[0].Type())
-		if id != "bytes.Buffer" && id != "bytes.Reader" {
+		// the byte sink/source may be the concrete type or an interface over it
+		id := ""
+		for _, p := range fn.Params {
+			switch t := typeID(p.Type()); t {
+			case "bytes.Buffer", "bytes.Reader":
+				id = t
+			}
+			if it, ok := p.Type().Underlying().(*types.Interface); ok && id == "" {
+				for i := 0; i < it.NumMethods(); i++ {
+					switch it.Method(i).Name() {
+					case "Read", "ReadByte":
+						id = "bytes.Reader"
+					case "Write", "WriteByte":
+						id = "bytes.Buffer"
+					}
+				}
+			}
+		}
+		if id == "" {
 			continue
 		}
 		var arrLen int64
@@ -1145,7 +1171,7 @@ func ruleBitsAndOrder(r *R) {
 			why = "the helper could not be executed symbolically (" + st.why + ")"
 		case id == "bytes.Buffer":
 			var data *ssa.Parameter
-			for _, p := range fn.Params[1:] {
+			for _, p := range fn.Params {
 				if w, _, isInt := intWidth(p.Type()); isInt && w == 8*n {
 					data = p
 				}
@@ -1164,7 +1190,7 @@ func ruleBitsAndOrder(r *R) {
 			}
 		default:
 			var got sval
-			for _, p := range fn.Params[1:] {
+			for _, p := range fn.Params {
 				if v, ok := st.pstores[p]; ok {
 					got = v
 				}
